@@ -24,6 +24,12 @@ def run(ctx, build):
     rng = ctx.rng
     lays = [l for l in gc.layouts_for(ctx, 25 if ctx.quick() else 300, dtypes=('f8', 'f4', 'i4', 'u2'), max_elems=150 if ctx.quick() else 600,
                                       max_dims=3) if not gc.more_dims_than_points(l) and l.dtype in ('f8', 'f4', 'i4', 'u2')]
+    # designed (independent of the seed): units outside ASCII (HDF5 attributes are UTF-8), exported to an explicit and to the default path
+    for k0 in range(2):
+        dl = gen.Layout([2, 2], [0, 1], [3], [0], dtype='f8')
+        dl.pos_units_utf8 = ['\u00b5m', 'k\u03a9']
+        dl.spec_units_utf8 = ['\u00b0C']
+        lays.insert(k0, dl)
     cases, meta, dcases, dmeta = [], [], [], []
     hist = {'datasets': 0, 'dims': {}, 'default_path': 0, 'explicit_path': 0, 'existing_output': 0, 'forced': 0, 'unwritable_target': 0, 'oversize': 0}
     distinct = set()
@@ -51,6 +57,11 @@ def run(ctx, build):
                 chunks = (min(lay.N, 4), min(lay.M, 5)) if li % 3 == 1 and lay.N * lay.M > 1 else None
                 hist['misaligned_chunks'] = hist.get('misaligned_chunks', 0) + int(chunks is not None)
                 main = gen.write_layout(f, lay, chunks=chunks)
+                if getattr(lay, 'pos_units_utf8', None):
+                    hist['non_ascii_units'] = hist.get('non_ascii_units', 0) + 1
+                    for anc_name, un in (('Position_Indices', lay.pos_units_utf8), ('Position_Values', lay.pos_units_utf8),
+                                         ('Spectroscopic_Indices', lay.spec_units_utf8), ('Spectroscopic_Values', lay.spec_units_utf8)):
+                        main.parent[anc_name].attrs['units'] = np.array(un, dtype=h5py.string_dtype('utf-8'))
                 # the wrapper's view (file order / sorted by rate, also reached by toggling) must not influence the table
                 view = ('file_order', 'sorted', 'toggled_to_sorted', 'toggled_twice')[li % 4]
                 with common.quiet():
@@ -78,8 +89,12 @@ def run(ctx, build):
                 if new_files[0] or len(new_files[1]) != 1 or not os.path.exists(ret):
                     violate('any', 'files_other_than_the_output_created_or_left', 'new in cwd %s, new in output dir %s' % (new_files[0], new_files[1]), desc)
                     continue
-                with open(ret, newline='') as fh:
-                    table = list(csv.reader(fh))
+                try:
+                    with open(ret, newline='', encoding='utf-8') as fh:
+                        table = list(csv.reader(fh))
+                except UnicodeDecodeError as e:
+                    violate('non_ascii_descriptors', 'exported_file_is_not_valid_text', '%r %s' % (e, desc), desc)
+                    continue
                 # ---- expected texts of every abstract cell
                 pos_vals, spec_vals = u.h5_pos_vals[()], u.h5_spec_vals[()]
                 data = main[()]
@@ -219,6 +234,29 @@ def run(ctx, build):
             dmeta.append({'step': 'oversized dataset without force', 'returned': ret})
             if ret is not None or listing() != before:
                 violate('oversized_dataset', 'oversized_dataset_written_without_force', 'returned %r, listing %s' % (ret, listing()), {})
+            # the same number of elements stored so that it takes (almost) no room in the file: the size that counts is the
+            # size of the table, not the allocated storage
+            for vname, vkw in (('gzip', dict(data=np.zeros((2, n // 2)), compression='gzip', chunks=(1, 50000))),
+                               ('never_written_chunks', dict(shape=(2, n // 2), dtype=np.float64, chunks=(1, 50000)))):
+                bv = f['Measurement_000/Channel_000'].create_dataset('Big_' + vname, **vkw)
+                for kk, vv in big.attrs.items():
+                    bv.attrs[kk] = vv
+                with common.quiet():
+                    ubv = usid.USIDataset(bv)
+                    try:
+                        retv = ubv.to_csv()
+                    except Exception as e:
+                        retv = None                           # refusing loudly is a refusal too
+                hist['oversize'] += 1
+                hist['oversize_' + vname] = 1
+                dcases.append(cpair(cbool(True), cbool(False), cbool(False), cnat(1 if retv is None else 0)))
+                dmeta.append({'step': 'oversized dataset (%s) without force' % vname, 'returned': retv})
+                if retv is not None or listing() != before:
+                    violate('oversized_dataset_' + vname, 'oversized_dataset_written_without_force', 'returned %r, listing %s' % (retv, listing()), {})
+                    for extra in set(listing()[0]) - set(before[0]):
+                        os.remove(os.path.join(work, extra))
+                    for extra in set(listing()[1]) - set(before[1]):
+                        os.remove(os.path.join(outdir, extra))
             if not ctx.quick():
                 with common.quiet():
                     ret = ub.to_csv(force=True)
